@@ -231,13 +231,25 @@ func ReassembleTOAST(chunks []TOASTChunk, valueID uint32, ptr *TOASTPointer) []b
 			return decompressed
 		}
 		
-		// Try zlib as fallback.  Like the two decompressors above it never returns more than the
-		// va_rawsize of the pointer: a deflate stream expands up to 1032 times, so an unbounded
-		// read turns a 256 KiB chunk into 200 MB.
+		// Try zlib as fallback (PostgreSQL never stores zlib in TOAST).  The result is bounded by the
+		// declared raw size AND by what the stored bytes could hold in the densest real format (LZ4:
+		// 255 output bytes per stream byte) - va_rawsize comes from the 18-byte pointer, so it is no
+		// bound on its own, and a deflate stream expands up to 1032 times.  The stream is inflated
+		// twice, first only counted, so that exactly the result is allocated instead of the several
+		// times its size io.ReadAll takes while growing.
+		limit := int64(rawSize)
+		if byStream := 255 * int64(len(data)); limit > byStream {
+			limit = byStream
+		}
 		if r, err := zlib.NewReader(bytes.NewReader(data)); err == nil {
 			defer r.Close()
-			if decompressed, err := io.ReadAll(io.LimitReader(r, int64(rawSize))); err == nil {
-				return decompressed
+			if n, err := io.Copy(io.Discard, io.LimitReader(r, limit)); err == nil {
+				decompressed := make([]byte, n)
+				if rs, ok := r.(zlib.Resetter); ok && rs.Reset(bytes.NewReader(data), nil) == nil {
+					if _, err := io.ReadFull(r, decompressed); err == nil {
+						return decompressed
+					}
+				}
 			}
 		}
 		
@@ -248,17 +260,99 @@ func ReassembleTOAST(chunks []TOASTChunk, valueID uint32, ptr *TOASTPointer) []b
 	return data
 }
 
-// allocHint bounds the up-front allocation of a decompressor: rawSize comes from an 18-byte
-// pointer and can claim up to 2^32 bytes whatever the size of the stream; append grows the
-// result beyond the hint when the stream really produces more
-func allocHint(rawSize, inputLen int) int {
-	if rawSize < 0 {
-		return 0
+// pglzOutputSize is the number of bytes decompressPGLZ produces for data and rawSize: the same walk
+// over the stream (the control flow depends on positions and lengths only, never on the bytes
+// produced) with a counter in place of the result.  decompressPGLZ allocates exactly that much,
+// once: rawSize comes from an 18-byte pointer and can claim up to 2^32 bytes whatever the stream
+// holds, and a result grown by append costs about five times its final size in allocations.  It is
+// a capacity only - were it ever too small, append would still grow the result.
+func pglzOutputSize(data []byte, rawSize int) int {
+	n, pos := 0, 0
+	for pos < len(data) && n < rawSize {
+		ctrl := data[pos]
+		pos++
+		for bit := 0; bit < 8 && pos < len(data) && n < rawSize; bit++ {
+			if ctrl&(1<<bit) == 0 {
+				n++
+				pos++
+				continue
+			}
+			if pos+1 >= len(data) {
+				break
+			}
+			offset := (int(data[pos]&0xF0) << 4) | int(data[pos+1])
+			length := int(data[pos]&0x0F) + 3
+			pos += 2
+			if length == 18 {
+				if pos >= len(data) {
+					break
+				}
+				length += int(data[pos])
+				pos++
+			}
+			if offset == 0 || offset > n {
+				continue
+			}
+			if length > rawSize-n {
+				length = rawSize - n
+			}
+			n += length
+		}
 	}
-	if limit := 8*inputLen + 4096; rawSize > limit {
-		return limit
+	return n
+}
+
+// lz4OutputSize is the number of bytes decompressLZ4 has produced when it returns (with a result
+// or an error), computed like pglzOutputSize
+func lz4OutputSize(data []byte, rawSize int) int {
+	n, pos := 0, 0
+	for pos < len(data) && n < rawSize {
+		token := data[pos]
+		pos++
+		literalLen := int(token >> 4)
+		if literalLen == 15 {
+			for pos < len(data) {
+				extra := int(data[pos])
+				pos++
+				literalLen += extra
+				if extra != 255 {
+					break
+				}
+			}
+		}
+		if pos+literalLen > len(data) {
+			literalLen = len(data) - pos
+		}
+		n += literalLen
+		pos += literalLen
+		if pos >= len(data) || n >= rawSize || pos+2 > len(data) {
+			break
+		}
+		offset := int(data[pos]) | (int(data[pos+1]) << 8)
+		pos += 2
+		if offset == 0 {
+			break
+		}
+		matchLen := int(token&0x0F) + 4
+		if matchLen == 19 {
+			for pos < len(data) {
+				extra := int(data[pos])
+				pos++
+				matchLen += extra
+				if extra != 255 {
+					break
+				}
+			}
+		}
+		if offset > n {
+			break
+		}
+		if matchLen > rawSize-n {
+			matchLen = rawSize - n
+		}
+		n += matchLen
 	}
-	return rawSize
+	return n
 }
 
 // decompressPGLZ decompresses PostgreSQL's pglz format
@@ -267,7 +361,7 @@ func decompressPGLZ(data []byte, rawSize int) ([]byte, error) {
 		return nil, fmt.Errorf("data too short")
 	}
 
-	result := make([]byte, 0, allocHint(rawSize, len(data)))
+	result := make([]byte, 0, pglzOutputSize(data, rawSize))
 	pos := 0
 
 	for pos < len(data) && len(result) < rawSize {
@@ -320,7 +414,7 @@ func decompressLZ4(data []byte, rawSize int) ([]byte, error) {
 		return nil, fmt.Errorf("data too short")
 	}
 
-	result := make([]byte, 0, allocHint(rawSize, len(data)))
+	result := make([]byte, 0, lz4OutputSize(data, rawSize))
 	pos := 0
 
 	for pos < len(data) && len(result) < rawSize {
